@@ -819,7 +819,7 @@ impl Engine for EngineG {
         out
     }
     fn rule(&self) -> String {
-        "seeded pairs of programs A and B with colliding names on purpose (engine A's store operations and fault transactions over the same global, procedure and vector names; define-syntax of the same fresh keywords with different templates and redefinitions of when/unless/cond/let; libraries of one name with different contents per instance, registered and as files under different program directories; failing imports), their forms interleaved over two instances on one thread by a seeded scheduler (uniform, bursty, A completely first), instance B created at its first use, 0-3 further instances created at random points and given a fixed sanity program. Oracle: the same scheduled forms of each program run alone on a fresh thread (solo reference on real code); sanity program vs a fresh-thread instance. distinct = hash of the interleaving pattern x op kinds; non-trivial = both programs touch a common name and a form of A runs between two forms of B".into()
+        "seeded pairs of programs A and B with colliding names on purpose (engine A's store operations and fault transactions over the same global, procedure and vector names; define-syntax of the same fresh keywords with different templates and redefinitions of when/unless/cond/let; libraries of one name with different contents per instance, registered and as files under different program directories; failing imports), their forms interleaved over two instances on one thread by a seeded scheduler (uniform, bursty, A completely first), instance B created at its first use, 0-3 further instances created at random points and given a fixed sanity program; optionally a third program, instances dropped after their last form, small program files through eval_file, one library file shared through symlinks, instances that start empty, programs that assign or redefine bundled names, and NESTED events: forms of other instances or the creation of an instance placed inside the evaluation of a form that calls the host procedure sim-nested (plain expressions, texts with further forms to come, the first import of a library whose body calls the host). Oracle: the same scheduled forms of each program run alone on a fresh thread (solo reference on real code); sanity program vs a fresh-thread instance. distinct = hash of the interleaving pattern x op kinds; non-trivial = both programs touch a common name and a form of A runs between two forms of B".into()
     }
     fn assumptions(&self) -> Vec<String> {
         vec![
